@@ -33,6 +33,7 @@ func (r *txRef) closeStmts() {
 	}
 	r.stmts = nil
 }
+
 type stmtRef struct {
 	s      *Store
 	tx     *txState
